@@ -142,10 +142,17 @@ class LiftGen:
         E = {r["name"]: r for r in g.core}
         lit, idr = self.vix["LiteralBit32"], self.vix["IdRef"]
         nid = [0]
+        # half of the modules number their declarations in increasing order (what the Builder produces); the others take their ids from a
+        # shuffled pool, so a smaller id is declared after a larger one and uses refer to ids above and below (ids reserved up front,
+        # hand-numbered modules, binaries of other tools): nothing in C18 depends on the numbering
+        pool = None
+        if rnd.random() < 0.5:
+            pool = list(range(1, 600)) + [2047, 2048, 4095, 4096, 7000, 7999]
+            rnd.shuffle(pool)
 
         def fresh():
             nid[0] += 1
-            return nid[0]
+            return pool[nid[0] - 1] if pool is not None and nid[0] <= len(pool) else (nid[0] if pool is None else 600 + nid[0])
         insts = []
         caps = [rnd.choice([0, 1, 2, 3, 4, 5, 6]) for _ in range(rnd.randrange(0, 4))]
         for c in caps:
